@@ -27,8 +27,8 @@ v('C01', 'scan-breaks-early', 'exec.scan-complete', (P, '''				if !isMatch {
 					continue
 				}
 				slice = append(slice, current)
-				if query.limitDefinition == 1 {
-					break
+				if query.limitDefinition == 1 && query.offsetDefinition == -1 && !query.distinct && len(query.orderByDefinition) == 0 && len(query.groupDefinition) == 0 {
+					return ExecSelect(query, slice)
 				}
 			}'''))
 # ---- C02
@@ -319,21 +319,27 @@ v('C13', 'cache-read-before-lock', 'c13.global-lockset', (S, '''	mut.Lock()
 	mut.Lock()
 	defer mut.Unlock()'''))
 # ---- C14
-v('C14', 'wait-after-postprocessors', 'c14.wait-before-post', (P, '''	query.wg.Wait()
+v('C14', 'wait-after-postprocessors', 'c14.wait-before-post', (P, '''	// the calls that were launched are awaited on the error path as well
+	query.wg.Wait()
+	if err != nil {
+		return nil, err
+	}
+	for _, postProcessor := range query.postProcessors {
+		err := postProcessor()
+		if err != nil {
+			return nil, err
+		}
+	}''', '''	if err != nil {
+		query.wg.Wait()
+		return nil, err
+	}
 	for _, postProcessor := range query.postProcessors {
 		err := postProcessor()
 		if err != nil {
 			return nil, err
 		}
 	}
-	return rs, nil''', '''	for _, postProcessor := range query.postProcessors {
-		err := postProcessor()
-		if err != nil {
-			return nil, err
-		}
-	}
-	query.wg.Wait()
-	return rs, nil'''))
+	query.wg.Wait()'''))
 v('C14', 'spinasync-not-counted', 'c14.strategy-table', (P, '''			query.wg.Add(1)
 			go func() {
 				defer query.wg.Done()
@@ -355,7 +361,7 @@ v('C14', 'once-stores-other-key', 'c14.strategy-table', (P, '''				query.singlet
 v('C14', 'getvar-not-immediate', 'c14.immediate-registry', (F, 'RegisterImmediateFunction("getvar", GetVarFunc)', 'RegisterFunction("getvar", GetVarFunc)'))
 # ---- C15
 v('C15', 'compare-in-left-type', 'c15.exact-domain', (C, 'x, y := float64(a), As[float64](b)', 'x, y := a, As[T](b)'))
-v('C15', 'text-operands-swapped', 'c15.symmetric-dispatch', (C, 'return strings.Compare(fmt.Sprintf("%v", a), t)', 'return strings.Compare(t, fmt.Sprintf("%v", a))'))
+v('C15', 'text-operands-swapped', 'c15.symmetric-dispatch', (C, 'return strings.Compare(text(a), t)', 'return strings.Compare(t, text(a))'))
 v('C15', 'greater-returns-minus-one', 'c15.trichotomy', (C, '''	if x > y {
 		return 1
 	}
@@ -385,8 +391,8 @@ v('C17', 'brackets-seen-in-backticks', 'c17.bracket-guard', (PR, '''		if hold !=
 v('C17', 'wrapped-extra-key', 'c17.option-order', (P, 'q.data = Map{"root": data}', 'q.data = Map{"root": data, "data": data}'))
 # ---- C18
 v('C18', 'decode-other-encoding', 'c18.codec-pairs', (F, 'bytes, err := base64.URLEncoding.DecodeString(*data)', 'bytes, err := base64.StdEncoding.DecodeString(*data)'))
-v('C18', 'if-branches-swapped', 'c18.select-contracts', (F, '''	if *condition {
-		if whenTrue == nil {''', '''	if !*condition {
+v('C18', 'if-branches-swapped', 'c18.select-contracts', (F, '''	if condition != nil && *condition {
+		if whenTrue == nil {''', '''	if condition != nil && !*condition {
 		if whenTrue == nil {'''))
 v('C18', 'last-on-empty', 'c18.index-contracts', (F, '''	len := len(*slice)
 	if len > 0 {''', '''	len := len(*slice)
@@ -448,9 +454,11 @@ v('C20', 'vars-copied', 'c20.same-map', (P, '''		query.options.vars = vars''', '
 # ---- C07
 v('C07', 'subquery-over-document', 'c07.scope-arg', (P, 'subQuery, err := Prepare(current, expr.Select, query.options)', 'subQuery, err := Prepare(query.data, expr.Select, query.options)'))
 v('C07', 'exists-always-true', 'c07.scope-arg', (P, 'return len(array) > 0, nil', 'return len(array) >= 0, nil'))
-v('C07', 'cte-stored-under-other-key', 'c07.cte-memo', (P, '''			data[copy.ID.String()] = rs
-			return rs, nil''', '''			data[strings.ToLower(copy.ID.String())] = rs
-			return rs, nil'''))
+v('C07', 'cte-stored-under-other-key', 'c07.cte-memo', (P, '''			data[copy.ID.String()] = CteEvaluation(func() (any, error) {
+				return rs, nil
+			})''', '''			data[strings.ToLower(copy.ID.String())] = CteEvaluation(func() (any, error) {
+				return rs, nil
+			})'''))
 v('C07', 'alias-reverses-rows', 'c07.alias', (P, '''		slice[i] = Map{
 			as: j,
 		}''', '''		slice[len(data)-1-i] = Map{
@@ -580,3 +588,141 @@ v('C12', 'document-value-not-sanitised', 'c12.thunk-resolved', (H, '''			if docu
 				return PlainDocument(document), nil
 			}
 ''', ''''''))
+# ---- rules added after the defect hunt: each variant undoes one repair
+v('C01', 'like-without-s-flag', 'c01.like-escape', (P, 'regExpr = "(?s)^" + regExpr + "$"', 'regExpr = "^" + regExpr + "$"'))
+v('C17', 'bytes-written-as-runes', 'c17.byte-copy', (PR, 'buffer.WriteByte(str[i+1])', 'buffer.WriteRune(rune(str[i+1]))'))
+v('C02', 'case-condition-not-unwrapped', 'c02.case', (P, '''		rs, err = ValueOf(query, current, rs)
+		if err != nil {
+			return nil, err
+		}
+		// a NULL condition is not true
+		if rs == nil {
+			continue
+		}
+''', ''))
+v('C07', 'cte-memo-plain-rows', 'c07.cte-memo', (P, '''			data[copy.ID.String()] = CteEvaluation(func() (any, error) {
+				return rs, nil
+			})
+			return rs, nil''', '''			data[copy.ID.String()] = rs
+			return rs, nil'''))
+v('C02', 'column-name-drops-outer', 'c02.column-name-complete', (P, '''	if outer := columnName.Qualifier.Qualifier.String(); len(outer) > 0 {
+		qualifier = fmt.Sprintf("%s.%s", outer, qualifier)
+	}
+''', ''))
+v('C03', 'group-value-under-flat-name', 'c03.group-row-addressable', (P, 'SetPath(current, innerKey, innerValue)', 'current[innerKey] = innerValue'))
+v('C04', 'derived-side-without-ident', 'c04.side-ident', (P, '''			// a join identifies its sides by this name
+			query.ident = as
+''', ''))
+v('C04', 'key-with-plain-separator', 'c04.key-encoding', (J, '''			buffer.WriteString(fmt.Sprintf("%d:", len(text)))
+			buffer.WriteString(text)''', '''			buffer.WriteString(text)
+			buffer.WriteString("-")'''))
+v('C05', 'union-order-by-dropped', 'c06.', (P, '''	err = BuildOrder(query, &expr.OrderBy)
+	if err != nil {
+		return err
+	}
+	err = BuildLimit(query, expr.Limit)''', '''	err = BuildLimit(query, expr.Limit)'''))
+v('C06', 'fingerprint-percent-v', 'c06.distinct-first', (P, 'fmt.Sprintf("%#v", item)', 'fmt.Sprintf("%v", item)'))
+v('C06', 'branch-with-overwritten', 'c06.branch-with', (P, 'branch.SetWith(MergeWith(with, branch.With))', 'branch.SetWith(with)'))
+v('C07', 'exists-outer-written-last', 'c07.exists-merge', (P, '''		for key, value := range current {
+			merged[key] = value
+		}
+		// the element's own columns hide the outer row's columns of the same name
+		for key, value := range item {
+			merged[key] = value
+		}''', '''		for key, value := range item {
+			merged[key] = value
+		}
+		for key, value := range current {
+			merged[key] = value
+		}'''))
+v('C07', 'not-in-compares-row-map', 'c01.in-siblings', (P, '''				// a row of a subquery stands for the value of its only column, as in the IN arm
+				if row, ok := value.(Map); ok {
+					for _, column := range row {
+						value = column
+						break
+					}
+				}
+''', ''))
+v('C07', 'function-applied-to-thunk', 'c07.function-on-thunk', (S, '''	if lazy, ok := rs.(func() (any, error)); ok {
+		rs, err = lazy()
+		if err != nil {
+			return nil, err
+		}
+	}
+''', ''))
+v('C08', 'alias-wraps-inner-arrays', 'c08.alias-nesting', (P, '''		if inner, ok := j.([]any); ok {
+			slice[i] = ProcessAlias(inner, as)
+			continue
+		}
+''', ''))
+v('C09', 'arrow-without-identifier-test', 'c09.function-arrow-guard', (S, 'if len(functions) == 2 && isFunctionName(functions[0]) {', 'if len(functions) == 2 {'))
+v('C09', 'raw-split-at-continuation', 'c09.continue-split', (S, 'selectors := splitContinue(selector)', 'selectors := strings.Split(selector, "::")'))
+v('C09', 'pipe-string-percent-f', 'c09.pipe-string', (S, "copy[selector.GetKey()] = strconv.FormatFloat(value, 'f', -1, 64)", 'copy[selector.GetKey()] = fmt.Sprintf("%f", value)'))
+v('C10', 'from-document-as-it-is', 'c10.from-plain-document', (P, '''					if document, ok := data.(Map); ok {
+						data = PlainDocument(document)
+					}
+''', ''))
+v('C13', 'parallel-without-guard', 'c13.parallel-guard', (J, 'if !j.joinType.IsParallel() || !isParallelSafe(j.joinExpr) {', 'if !j.joinType.IsParallel() {'))
+v('C14', 'distinct-before-resolve', 'c14.resolve-before-compare', (P, 'if query.distinct || len(query.orderByDefinition) > 0 {', 'if query.distinct && len(query.orderByDefinition) > 1000000 {'))
+v('C14', 'join-sides-not-adopted', 'c14.join-sides-adopted', (P, '''	query.postProcessors = append(query.postProcessors, left.postProcessors...)
+''', ''))
+v('C14', 'error-path-skips-wait', 'c14.wait-before-post', (P, '''	// the calls that were launched are awaited on the error path as well
+	query.wg.Wait()
+	if err != nil {
+		return nil, err
+	}''', '''	if err != nil {
+		return nil, err
+	}
+	query.wg.Wait()'''))
+v('C14', 'await-does-not-wait', 'c14.await-waits', (P, '''			query.wg.Wait()
+			rs = slice[0]''', '''			rs = slice[0]'''))
+v('C15', 'text-helper-percent-v', 'c15.decimal-text', (C, "return strconv.FormatFloat(t, 'f', -1, 64)", 'return fmt.Sprintf("%v", t)'))
+v('C16', 'line-comment-ends-at-cr', 'c16.lexer-tokenizer', (Z, "		case '\\n':\n			// the parser ends a one-line comment", "		case '\\n', '\\r':\n			// the parser ends a one-line comment"))
+v('C16', 'double-slash-unknown', 'c16.lexer-tokenizer', (Z, '''			if nextRune == '/' {
+				l.pos += width
+				return oneLineCommentState
+			}''', ''))
+v('C16', 'eof-by-width-three', 'c16.lexer-tokenizer', (Z, '''func escapeStringState(l *sqlLexer) stateFn {''', '''func escapeStringState(l *sqlLexer) stateFn {
+	_ = replacementcharacterwidth'''), (Z, '''			l.pos += width
+		case utf8.RuneError:
+			if width == 0 {
+				if l.pos-l.start > 0 {
+					l.parts = append(l.parts, l.src[l.start:l.pos])
+					l.start = l.pos
+				}
+				return nil
+			}
+		}
+	}
+}
+
+func oneLineCommentState''', '''			l.pos += width
+		case utf8.RuneError:
+			if width != 3 {
+				if l.pos-l.start > 0 {
+					l.parts = append(l.parts, l.src[l.start:l.pos])
+					l.start = l.pos
+				}
+				return nil
+			}
+		}
+	}
+}
+
+func oneLineCommentState'''))
+v('C16', 'nan-rendered', 'c16.lexer-tokenizer', (Z, '''				if math.IsNaN(arg) || math.IsInf(arg, 0) {''', '''				if math.IsNaN(arg) && math.IsInf(arg, 0) {'''))
+v('C17', 'backtick-not-doubled', 'c17.backtick-doubled', (PR, '''					if r == '`' {
+						buffer.WriteByte('`')
+					}
+''', ''))
+v('C17', 'escape-skip-everywhere', 'c17.bracket-escape-scope', (PR, '''				if hold != nil && *hold != '`' {
+					i++
+				}''', '''				i++'''))
+v('C18', 'text-of-percent-v', 'c18.text-of', (F, '''	case float64:
+		return strconv.FormatFloat(value, 'f', -1, 64)
+	case float32:''', '''	case float32:'''))
+v('C18', 'elementat-empty-is-error', 'c18.index-contracts', (F, '''	if len(*slice) == 0 {
+		return nil, nil
+	}
+	indexRaw, err''', '''	indexRaw, err'''))
+v('C18', 'gob-id-not-primed', 'c18.hash-stable', (F, '	_ = gob.NewEncoder(io.Discard).Encode(struct{ Data any }{})\n', '	_ = io.Discard\n'))
